@@ -56,6 +56,12 @@ var timeName = regexp.MustCompile(`\b(now|localtime|strflocaltime|mktime|strptim
 // command's custom functions or the module loader.
 func Deterministic(src string) bool { return !timeName.MatchString(src) }
 
+var hugeLiteral = regexp.MustCompile(`[0-9]{7,}|[0-9]e[0-9]{1,}|E[0-9]|infinite`)
+
+// Tame reports whether a program avoids literals that make single natives allocate or loop for
+// seconds (string repetition by 1e9, range(1e9), ...): used where runs are not cut between polls.
+func Tame(src string) bool { return !hugeLiteral.MatchString(src) }
+
 // Corpus loads cli/test.yaml from the current tree and keeps the cases that
 // reduce to (query, JSON inputs[, --arg/--argjson variables]).
 func Corpus() ([]Prog, error) {
